@@ -187,7 +187,7 @@ def enc_graph(g) -> list[str]:
 # which revision of two repaired spots the model restates (F1: _match_node fails the match on missing outputs,
 # /repo 778bd07; F7a: BacktrackingOr.clone without tag_var, /repo e372708).  Pinned to the repaired, committed
 # revision; c06.check_fixed_findings() reports a VIOLATION if the working tree shows the pre-fix behaviour.
-FLAGS = "111111110"
+FLAGS = "111111111"
 
 
 def case_line(mode: str, case, pattern_tokens=None, graph_tokens=None) -> str:
